@@ -187,10 +187,16 @@ func (l *Listener) HotRestart(epoch uint64) error {
 	l.epoch = epoch
 	verifTrace("LBegin", l, nil, int64(epoch), 0)
 
+	// the sessions are notified without sessionMu: a failed write closes the session on this goroutine, and
+	// Session.Close calls back into removeShutdownSession which takes sessionMu.
 	l.sessions.sessionMu.Lock()
-	defer l.sessions.sessionMu.Unlock()
-
+	sessions := make([]*Session, 0, len(l.sessions.data))
 	for session := range l.sessions.data {
+		sessions = append(sessions, session)
+	}
+	l.sessions.sessionMu.Unlock()
+
+	for _, session := range sessions {
 		if !session.handshakeDone {
 			return ErrInHandshakeStage
 		}
